@@ -444,7 +444,7 @@ pub fn run(ctx: &mut Ctx) {
     crate::props::run_regressions(ctx, "C02");
 
     ctx.layer("exhaustive");
-    let dsets: Vec<DS> = { let mut v = dsets_up_to(2, t.pick(5, 7)); v.extend(dsets_up_to(3, t.pick(4, 5))); v.extend(dsets_up_to(1, t.pick(6, 8))); v };
+    let dsets: Vec<DS> = { let mut v = dsets_up_to(2, t.pick(5, 7)); v.extend(dsets_up_to(3, t.pick(4, 5))); v.extend(dsets_up_to(1, t.pick(6, 8))); v.extend(dsets_up_to(4, t.pick(3, 4))); v.extend(dsets_up_to(5, 3)); v };
     let mut cases = vec![];
     let mut complete = true;
     for ds in &dsets {
@@ -454,7 +454,7 @@ pub fn run(ctx: &mut Ctx) {
             cases.push(Query { ds: s, indices: vec![], seeds: vec![], holes: vec![] });
         }
     }
-    let note = format!("all branching assignments v <= 2 on all {} D-sets (dim 2 size <= {}, dim 3 size <= {}, dim 1 size <= {}) x all non-empty index subsets x seed lists", dsets.len(), t.pick(5, 7), t.pick(4, 5), t.pick(6, 8));
+    let note = format!("all branching assignments v <= 2 on all {} D-sets (dim 2 size <= {}, dim 3 size <= {}, dim 1 size <= {}, dim 4 and 5 with 3-4 chambers) x all non-empty index subsets x seed lists", dsets.len(), t.pick(5, 7), t.pick(4, 5), t.pick(6, 8));
     ctx.run_par(&SUB_QUERY, cases, if complete { Some(&note) } else { None });
     if !complete {
         ctx.note(format!("{} (capped per D-set)", note));
@@ -463,7 +463,7 @@ pub fn run(ctx: &mut Ctx) {
     ctx.layer("random");
     let n = t.pick(20_000u32, 1_500_000u32);
     let q = |s: BoxedStrategy<DS>| {
-        (s, prop::collection::vec(0usize..4, 0..6), prop::collection::vec(1usize..80, 0..5), prop::collection::vec((0usize..4, 0usize..80), 0..3))
+        (s, prop::collection::vec(0usize..7, 0..6), prop::collection::vec(1usize..80, 0..5), prop::collection::vec((0usize..7, 0usize..80), 0..3))
             .prop_map(|(ds, indices, seeds, holes)| {
                 let size = ds.size;
                 let seeds = if indices.is_empty() { vec![] } else { seeds.into_iter().map(|s| 1 + (s - 1) % size).collect() };
@@ -473,6 +473,9 @@ pub fn run(ctx: &mut Ctx) {
     };
     ctx.run_prop(&SUB_QUERY, || q(prop_oneof![random_symbol_any(2, 1..=24), random_symbol_any(3, 1..=24), random_symbol_any(1, 1..=16)].boxed()), n);
     ctx.run_prop(&SUB_QUERY, || q(prop_oneof![random_symbol(2, 25..=60), random_symbol(3, 25..=60)].boxed()), n / 10);
+    // higher dimensions; sizes across 64 / 128 / 256 / 1024 chambers
+    ctx.run_prop(&SUB_QUERY, || q(prop_oneof![random_symbol_any(4, 1..=20), random_symbol_any(5, 1..=16), random_symbol_any(6, 1..=12), random_symbol(4, 21..=70)].boxed()), n / 4);
+    ctx.run_prop(&SUB_QUERY, || q(prop_oneof![random_symbol(2, 61..=70), random_symbol(3, 120..=135), random_symbol(2, 250..=262), random_symbol(3, 1020..=1030)].boxed()), n / 200);
     // outputs of the crate's own generators, as they come (SimpleDSet with counters)
     ctx.layer("generator-outputs");
     let gens: Vec<Query> = [(1usize, 6usize), (2, t.pick(5, 7)), (3, t.pick(4, 5))]
